@@ -248,6 +248,47 @@ def lateness_sweep(ctx, mine, lates, starts=(None, 65500, 65530), per_tick=1):
     report(ctx, rej, traces, lambda tid: names[tid - 1], mine)
 
 
+def _gap(args):
+    """G consecutive datagrams of the client are lost (G across the window width), the first datagram after the gap arrives - the window jumps and is empty but for
+    its newest entry - and right then a copy of a datagram from before the gap is replayed: older than the window, dropped whole."""
+    G, start, seed = args
+    w = W.ConnWorld(start_seq=start)
+    try:
+        import random
+        rnd = random.Random(seed)
+        pre = rnd.randint(4, 7)
+
+        def sends(tick, name, world):
+            return [(rnd.choice([4, 20]), 0, False)] if name == "c" and tick <= pre + G + 6 else []
+
+        def fate(tick, name, dgid, world):
+            if name == "c" and pre < dgid <= pre + G:
+                return []
+            return [0]
+
+        def replays(tick, name, world):
+            if name == "c" and tick in (pre + G + 1, pre + G + 2):
+                return [2, 3]
+            return []
+        return w.run(W.FnPolicy(sends, fate, replays), pre + G + 14, heal_after=pre + G + 10, quiesce_ticks=200)
+    finally:
+        w.close()
+
+
+def gap_sweep(ctx, mine, gaps, starts=(None, 65500)):
+    from concurrent.futures import ProcessPoolExecutor
+    jobs = [(G, st, ctx.seed + G) for G in gaps for st in starts]
+    with ProcessPoolExecutor(16) as ex:
+        traces = list(ex.map(_gap, jobs))
+    names = ["gap-%d(start=%s)" % (j[0], j[1]) for j in jobs]
+    rej, r = judge(ctx, traces, "Trace_Conn %s gap sweep (%d traces)" % (mine, len(traces)), stale=True, ctxdev=True)
+    ctx.traces += len(traces) - len({x["tid"] for x in rej})
+    for t in traces:
+        ctx.evaluations += len(t)
+    ctx.extra["gap_sweep"] = "%d schedules, %d..%d consecutive datagrams lost, then a replay from before the gap" % (len(jobs), min(gaps), max(gaps))
+    report(ctx, rej, traces, lambda tid: names[tid - 1], mine)
+
+
 def _acklate(args):
     """Every datagram of the return path is lost for exactly L ticks while both sides emit one datagram per tick: the first acknowledgement that gets through
     names the oldest unacknowledged datagram at distance L (+-1) - a sweep of L across the 32-bit ack window exercises every bit, the last one included."""
